@@ -20,3 +20,47 @@ pub proof fn lemma_be64_roundtrip(n: nat)
   assert(n == a6 * 256 + n % 256);
 }
 
+
+// to_be64 is the inverse of be64 on 8-byte sequences (used by the codec's consumed-header view)
+pub proof fn lemma_be64_inj(s: Seq<u8>)
+  requires s.len() == 8
+  ensures to_be64(be64(s)) =~= s
+{
+  let n = be64(s) as int;
+  let b0 = s[0] as int; let b1 = s[1] as int; let b2 = s[2] as int; let b3 = s[3] as int;
+  let b4 = s[4] as int; let b5 = s[5] as int; let b6 = s[6] as int; let b7 = s[7] as int;
+  let p0 = b0;
+  let p1 = p0 * 256 + b1;
+  let p2 = p1 * 256 + b2;
+  let p3 = p2 * 256 + b3;
+  let p4 = p3 * 256 + b4;
+  let p5 = p4 * 256 + b5;
+  let p6 = p5 * 256 + b6;
+  let p7 = p6 * 256 + b7;
+  assert(n == p7);
+  let r1 = b7;
+  let r2 = b6 * 0x100 + r1;
+  let r3 = b5 * 0x1_0000 + r2;
+  let r4 = b4 * 0x100_0000 + r3;
+  let r5 = b3 * 0x1_0000_0000 + r4;
+  let r6 = b2 * 0x100_0000_0000 + r5;
+  let r7 = b1 * 0x1_0000_0000_0000 + r6;
+  vstd::arithmetic::div_mod::lemma_fundamental_div_mod_converse(n, 0x100_0000_0000_0000, p0, r7);
+  vstd::arithmetic::div_mod::lemma_fundamental_div_mod_converse(n, 0x1_0000_0000_0000, p1, r6);
+  vstd::arithmetic::div_mod::lemma_fundamental_div_mod_converse(n, 0x100_0000_0000, p2, r5);
+  vstd::arithmetic::div_mod::lemma_fundamental_div_mod_converse(n, 0x1_0000_0000, p3, r4);
+  vstd::arithmetic::div_mod::lemma_fundamental_div_mod_converse(n, 0x100_0000, p4, r3);
+  vstd::arithmetic::div_mod::lemma_fundamental_div_mod_converse(n, 0x1_0000, p5, r2);
+  vstd::arithmetic::div_mod::lemma_fundamental_div_mod_converse(n, 0x100, p6, r1);
+  vstd::arithmetic::div_mod::lemma_fundamental_div_mod_converse(p1, 256, p0, b1);
+  vstd::arithmetic::div_mod::lemma_fundamental_div_mod_converse(p2, 256, p1, b2);
+  vstd::arithmetic::div_mod::lemma_fundamental_div_mod_converse(p3, 256, p2, b3);
+  vstd::arithmetic::div_mod::lemma_fundamental_div_mod_converse(p4, 256, p3, b4);
+  vstd::arithmetic::div_mod::lemma_fundamental_div_mod_converse(p5, 256, p4, b5);
+  vstd::arithmetic::div_mod::lemma_fundamental_div_mod_converse(p6, 256, p5, b6);
+  vstd::arithmetic::div_mod::lemma_fundamental_div_mod_converse(p7, 256, p6, b7);
+  vstd::arithmetic::div_mod::lemma_small_mod(p0 as nat, 256);
+  let t = to_be64(be64(s));
+  assert(t[0] == s[0]); assert(t[1] == s[1]); assert(t[2] == s[2]); assert(t[3] == s[3]);
+  assert(t[4] == s[4]); assert(t[5] == s[5]); assert(t[6] == s[6]); assert(t[7] == s[7]);
+}
